@@ -152,6 +152,11 @@ class RecursiveLexer {
     Token nextToken();
     bool isAtEnd() const;
     Token peekToken();
+#ifdef CB_VERIF
+    // verification hook: offset of the next unread character (restored together
+    // with the lexer when the parser backtracks)
+    size_t verif_offset() const { return current_; }
+#endif
 
   private:
     std::string source_;
